@@ -660,7 +660,7 @@ def check_C05(ctx):
                 'text must type-check as a module (cargo check, one crate per batch, failing modules isolated); text must equal the model; '
                 'non-trivial = grammar uses >=1 helper name; distinct by text')
     cases = []
-    for k in ('start_named_S', 'eof_terminal', 'eof_nonterminal', 'helper_names', 'reduce_names', 'zero_terminals', 'all_underscore',
+    for k in ('start_named_S', 'variant_named_error', 'nonterminal_named_error', 'eof_terminal', 'eof_nonterminal', 'helper_names', 'reduce_names', 'zero_terminals', 'all_underscore',
               'variantless_enum_unref', 'variantless_enum_ref', 'tuple_struct_used'):
         cases.append((None, gen.CURATED[k]))
     n = ctx.n(40, 500)
